@@ -65,12 +65,12 @@ def gen_cases(ctx, table, scale):
                 out.append([t, k])
         return out
 
-    def mk(kind, parts, regs=None, ch=None, hint=100):
+    def mk(kind, parts, regs=None, ch=None, hint=100, fin_ms=0, fin_rst=False):
         if regs is None:
             regs = regnames[ri[0] % len(regnames)]
             ri[0] += 1
         cases.append({"kind": kind, "parts": parts, "chunks": ch if ch is not None else chunks(hint), "regs": REGS[regs],
-                      "regs_name": regs})
+                      "regs_name": regs, "fin_ms": fin_ms, "fin_rst": fin_rst})
 
     if ctx.replay:
         # --replay: exactly the recorded failing probes (their original specification)
@@ -153,6 +153,17 @@ def gen_cases(ctx, table, scale):
             mk("drain", [{"gen": [rng.randrange(1, 1 << 30), 12000]}], regs=regs,
                ch=[[50, 9000], [1500, 1000], [rng.randrange(2500, 4400), -1]])
         mk("late", [{"gen": [rng.randrange(1, 1 << 30), 300]}], ch=[[50, 100], [10600, -1]])
+        # the boundary of the property: the PEER closes (FIN) or resets before the deadline, after its
+        # data - in the loop, while draining from the start, and after every transport has given up
+        mk("peerclose", [], regs="none", ch=[], fin_ms=700)
+        mk("peerclose", [], regs="one-min", ch=[], fin_ms=300)
+        mk("peerclose", [{"gen": [rng.randrange(1, 1 << 30), 90]}], regs="none", ch=[[100, 40], [800, -1]], fin_ms=1500)
+        mk("peerclose", [{"gen": [rng.randrange(1, 1 << 30), 90]}], regs="many", ch=[[100, 40], [800, -1]], fin_ms=1500)
+        mk("peerclose", [{"row": 1}, {"gen": [rng.randrange(1, 1 << 30), 70]}], regs="one-prefix", ch=[[50, -1]], fin_ms=rng.randrange(60, 4400))
+        mk("peerclose", [flight("prefix", 4, flip=8 * 20 + 3)], regs="many", ch=[[50, 30], [400, -1]], fin_ms=2200)
+        mk("peerclose", [{"gen": [rng.randrange(1, 1 << 30), 9000]}], regs="one-obfs4", ch=[[50, -1]], fin_ms=4400)
+        mk("peerclose", [{"gen": [rng.randrange(1, 1 << 30), 200]}], regs="invalid", ch=[[50, 100], [2000, -1]], fin_ms=2000, fin_rst=True)
+        mk("peerclose", [{"gen": [rng.randrange(1, 1 << 30), 200]}], regs="none", ch=[[50, -1]], fin_ms=900, fin_rst=True)
         # near misses that DO carry a valid tag (outside this property: they exercise the model's
         # give-up path in the correspondence and are not judged by the oracle)
         mk("validtag-wrongprefix", [flight("prefix", 2, as_prefix=1), {"gen": [8, 50]}], ch=[[10, 30], [700, -1], [3000, 0]])
@@ -215,6 +226,25 @@ def judge(ctx, c, r, Ds):
     if r.get("closes"):
         ctx.fail(key + ":close", "station closed an unauthenticated connection at %.0f ms (deadline %.0f ms)" % (r["closes"][0], D), brief)
     ret = r.get("returned", -1)
+    reads = r.get("reads") or []
+    if c.get("fin_ms"):
+        # the peer ended the connection itself at fin_ms (< every possible deadline): the station may
+        # return from then on, not before; everything else as for a silent peer
+        fin = c["fin_ms"]
+        if ret < 0:
+            ctx.fail(key + ":hang", "handler did not return within 15 s", brief)
+        elif ret < fin - 2:
+            ctx.fail(key + ":early-return", "handler returned %.0f ms before the peer closed its side (and %.0f ms before its deadline)"
+                     % (fin - ret, D - ret), brief)
+        elif ret > fin + 1500 and ret > D + 1500:
+            ctx.fail(key + ":late-return", "handler returned %.0f ms after its deadline" % (ret - D), brief)
+        if any(cl["res"] not in ("again", "not") for cl in (r.get("calls") or [])):
+            ctx.fail(key + ":reacted", "a transport gave a decisive answer on a stream without a valid tag", brief)
+        if r.get("unread", 0) > 0 or r.get("max_lag", 0) > 1000:
+            ctx.fail(key + ":stopped-reading", "station stopped reading before the peer closed: %d byte(s) never read" % r.get("unread", 0), brief)
+        elif ret >= 0 and not (reads and reads[-1].get("err") in ("eof", "rst", "timeout") and reads[-1]["t"] >= fin - 2):
+            ctx.fail(key + ":not-reading-at-close", "the handler was not reading when the peer closed its side", brief)
+        return
     if ret < 0:
         ctx.fail(key + ":hang", "handler did not return within 15 s", brief)
     elif ret < D - 2:
@@ -223,7 +253,6 @@ def judge(ctx, c, r, Ds):
         ctx.fail(key + ":late-return", "handler returned %.0f ms after its deadline" % (ret - D), brief)
     if any(cl["res"] not in ("again", "not") for cl in (r.get("calls") or [])):
         ctx.fail(key + ":reacted", "a transport gave a decisive answer on a stream without a valid tag", brief)
-    reads = r.get("reads") or []
     if r.get("unread", 0) > 0 or r.get("max_lag", 0) > 1000:
         ctx.fail(key + ":stopped-reading", "station stopped reading before its deadline: %d byte(s) sent before the deadline were never "
                  "read (worst read lag %.0f ms)" % (r.get("unread", 0), r.get("max_lag", 0)), brief)
@@ -231,7 +260,7 @@ def judge(ctx, c, r, Ds):
         ctx.fail(key + ":not-reading-at-deadline", "the handler was not blocked in a Read when its deadline passed", brief)
 
 
-def probe_term(r):
+def probe_term(r, c=None):
     parts = []
     for p in (r.get("parts") or []):
         if p.get("gen"):
@@ -247,9 +276,14 @@ def probe_term(r):
     D = int(round(sd[0][1])) if sd else 0
     quiet = all(cl["res"] in ("again", "not") for cl in (r.get("calls") or []))
     allreads = r.get("reads") or []
-    slept = not found and not (allreads and allreads[-1].get("err") == "timeout")
-    return "(Build_probe_case %s %s %s %s %s %s)" % (
-        conn, glist(r.get("script") or [], lambda x: "(%s, %s)" % (gN(x[0]), gN(x[1]))), gN(D), gN(sum(reads)), gbool(quiet), gbool(slept))
+    last = allreads[-1].get("err") if allreads else None
+    slept = not found and last not in ("timeout", "eof", "rst")
+    fin = "None"
+    if c and c.get("fin_ms"):
+        fin = "(Some (%s, %s))" % (gN(c["fin_ms"]), gN(1 if c.get("fin_rst") else 0))
+    return "(Build_probe_case %s %s %s %s %s %s %s %s)" % (
+        conn, glist(r.get("script") or [], lambda x: "(%s, %s)" % (gN(x[0]), gN(x[1]))), gN(D), gN(sum(reads)), gbool(quiet), gbool(slept),
+        fin, gbool(last in ("eof", "rst")))
 
 
 def header(table):
@@ -312,6 +346,7 @@ def run(ctx):
         if r.get("err"):
             ctx.broken("driver", "probe could not be built: %s" % r["err"], {"case": c})
             continue
+        c04.scope_checks(ctx, r)
         tagged = presents_tag(r, table)
         judged = tagged is None
         if judged == c["kind"].startswith("validtag"):
@@ -325,7 +360,7 @@ def run(ctx):
         ctx.count((c["kind"], c.get("regs_name"), tuple(map(tuple, r.get("script") or [])), str(r.get("parts"))[:200]),
                   nontrivial=r.get("returned", -1) >= 0, kind="%s/%s" % (c["kind"], "bad" if bad else "ok"))
         ctx.cov["histogram"]["regs:" + c.get("regs_name", "?")] = ctx.cov["histogram"].get("regs:" + c.get("regs_name", "?"), 0) + 1
-        terms.append(probe_term(r))
+        terms.append(probe_term(r, c))
         idx.append(i)
     if len(Ds) >= 8:
         if len(set(round(d) for d in Ds)) < 2 or max(Ds) - min(Ds) < 100:
@@ -338,7 +373,7 @@ def run(ctx):
                     "observed": {k: r.get(k) for k in ("set_deadline", "writes", "closes", "returned", "max_lag", "unread")}})
     if not ctx.replay:
         ctx.require_kinds(["random/ok", "lookalike/ok", "static/ok", "flip/ok", "short/ok", "unregistered/ok", "unvalidated/ok", "loworder/ok", "manychunks/ok",
-                           "drain/ok", "late/ok", "validtag-wrongprefix/ok", "validtag-wrongtransport/ok", "validtag-obfs4-badmac/ok"] + ["regs:" + n for n in REGS])
+                           "phantom:v4", "phantom:v6", "drain/ok", "late/ok", "peerclose/ok", "validtag-wrongprefix/ok", "validtag-wrongtransport/ok", "validtag-obfs4-badmac/ok"] + ["regs:" + n for n in REGS])
     lap("oracle + emit")
     mm = c04.coq_mismatches_retry(ctx, "probe", header(table), terms, "chk'", max(20, len(terms) // 16 + 1), ["C03/Run.vo"])
     lap("coq evaluation of %d probes" % len(terms))
